@@ -26,6 +26,8 @@ use crate::util::*;
 // ------------------------------------------------------------------------------------------------
 
 const NOBODY: usize = usize::MAX;
+/// Scheduling mode of the supplementary uncontrolled stage (real parallel threads, no baton).
+pub const FREE_RUNNING: u8 = 9;
 
 struct Inner {
     current: usize,
@@ -440,7 +442,33 @@ fn run_phase(scripts: &[Vec<RCall>], sh: Option<Arc<Shared>>, seed: u64, mode: u
         let b = b.clone();
         let sh = sh.clone();
         let results = results.clone();
+        let free = mode == FREE_RUNNING;
         handles.push(std::thread::spawn(move || {
+            if free {
+                // uncontrolled stage: real parallelism, the baton is not used (yield points return at once);
+                // a start barrier makes the threads overlap
+                {
+                    let mut g = b.mu.lock().unwrap();
+                    while !g.started {
+                        g = b.cv.wait(g).unwrap();
+                    }
+                }
+                let mut out = Vec::new();
+                for round in 0..3 {
+                    for (k, c) in script.iter().enumerate() {
+                        let r = do_call(c, sh.as_deref());
+                        if round == 0 {
+                            out.push(r);
+                        } else if !same(&out[k], &r) {
+                            // a later repetition disagrees with the first: keep the odd one so that the comparison
+                            // with the sequential reference reports it
+                            out[k] = r;
+                        }
+                    }
+                }
+                results.lock().unwrap()[me] = out;
+                return;
+            }
             TID.with(|t| t.set(me));
             wait_turn(&b, me);
             let mut out = Vec::new();
@@ -720,7 +748,8 @@ pub fn identity_relations(b: &[u8], n: usize) -> Result<(), String> {
 pub fn generate_baton(seed: u64, thorough: bool, keygen_heavy: bool) -> BatonTrace {
     let mut rng = Prng::new(seed);
     let threads = 2 + rng.usize_below(3);
-    let mode = rng.below(3) as u8;
+    // one scenario in five runs uncontrolled (real parallelism; supplementary, not replayable by schedule)
+    let mode = if rng.chance(1, 5) { FREE_RUNNING } else { rng.below(3) as u8 };
     let seeds: Vec<Vec<u8>> = (0..3).map(|_| { let n = rng.usize_below(30); rng.bytes(n) }).collect();
     let mut cold = Vec::new();
     for _ in 0..threads {
